@@ -25,6 +25,7 @@ def run(check: Check, repo: Repo, tier: str) -> None:
     D.option_map(check, repo)
     D.introspect_matrix(check, repo)
     D.enum_tables(check, repo)
+    D.client_builds_from_data(check, repo)
     from rules import coercion_rules as K2
     K2.field_requiredness(check, repo)
     L.ws_agree(check, repo, ['language.block_string', 'language.printer'])
@@ -38,3 +39,6 @@ def run(check: Check, repo: Repo, tier: str) -> None:
     L.optional_truthiness(check, repo, ["type.introspection", "utilities.build_client_schema", "utilities.print_schema"],
                           str_attrs=("deprecation_reason",))
     check.floor("OPTIONAL-TRUTHINESS", 3, "deprecation tests")
+    from rules import exec_rules as X
+    X.attr_memo(check, repo, [repo.mod(m) for m in ("utilities.get_default_value_ast", "utilities.value_to_literal", "utilities.coerce_input_value",
+                                                   "utilities.introspection_from_schema", "utilities.build_client_schema", "type.introspection")])
